@@ -259,22 +259,48 @@ def PExpr.isMul : PExpr → Bool
   | .mul _ _ => true
   | _ => false
 
-def paren (s : String) : String := "(" ++ s ++ ")"
+/-- how `deparse` spells a token: binary operators and `=` are surrounded by single spaces,
+everything else is printed bare -/
+def Tok.render : Tok → List Char
+  | .name s => s.toList
+  | .int s => s.toList
+  | .flt s => s.toList
+  | .lpar => ['(']
+  | .rpar => [')']
+  | .comma => [',']
+  | .star => [' ', '*', ' ']
+  | .plus => [' ', '+', ' ']
+  | .minus => [' ', '-', ' ']
+  | .eq => [' ', '=', ' ']
 
-def PExpr.deparse : PExpr → String
-  | .int s => s
-  | .flt s => s
-  | .tensor n idx => n ++ "(" ++ ",".intercalate idx ++ ")"
-  | .add l r =>
-    l.deparse ++ " + " ++ (if r.isAddSub then paren r.deparse else r.deparse)
-  | .sub l r =>
-    l.deparse ++ " - " ++ (if r.isAddSub then paren r.deparse else r.deparse)
+def render (ts : List Tok) : List Char := ts.flatMap Tok.render
+
+/-- `name(i,j,…)` -/
+def tensorToks (n : String) (idx : List String) : List Tok :=
+  .name n :: .lpar :: (match idx with
+    | [] => []
+    | i :: rest => .name i :: rest.flatMap fun j => [.comma, .name j]) ++ [.rpar]
+
+def parenToks (ts : List Tok) : List Tok := .lpar :: ts ++ [.rpar]
+
+/-- the token sequence `Expression.deparse` prints (parentheses exactly where the code puts them:
+right operand of `+`/`-` if it is a sum/difference; left operand of `*` if it is a sum/difference,
+right operand of `*` if it is a sum/difference/product) -/
+def PExpr.toks : PExpr → List Tok
+  | .int s => [.int s]
+  | .flt s => [.flt s]
+  | .tensor n idx => tensorToks n idx
+  | .add l r => l.toks ++ [.plus] ++ (if r.isAddSub then parenToks r.toks else r.toks)
+  | .sub l r => l.toks ++ [.minus] ++ (if r.isAddSub then parenToks r.toks else r.toks)
   | .mul l r =>
-    (if l.isAddSub then paren l.deparse else l.deparse) ++ " * " ++
-      (if r.isAddSub || r.isMul then paren r.deparse else r.deparse)
+    (if l.isAddSub then parenToks l.toks else l.toks) ++ [.star] ++
+      (if r.isAddSub || r.isMul then parenToks r.toks else r.toks)
 
-def PAssign.deparse (a : PAssign) : String :=
-  a.tname ++ "(" ++ ",".intercalate a.tidx ++ ")" ++ " = " ++ a.rhs.deparse
+def PExpr.deparse (e : PExpr) : String := String.ofList (render e.toks)
+
+def PAssign.toks (a : PAssign) : List Tok := tensorToks a.tname a.tidx ++ [.eq] ++ a.rhs.toks
+
+def PAssign.deparse (a : PAssign) : String := String.ofList (render a.toks)
 
 /-! ### formats -/
 
